@@ -94,6 +94,10 @@ def _explore(run, **kw):
             elab.restore_stderr(); ctx.check(f"no-undeclared-exception:{type(e).__name__}", z3.BoolVal(False))
     return explore(guarded, **kw)
 
+class SidecarMismatch(Exception): pass
+def _sidecar_ok(cond, msg):
+    if not cond: raise SidecarMismatch(msg)
+
 def _wrap(tag, runner, functions, state, need=(), min_paths=1, extra_cover=lambda stats: True, replay=None):
     """runner(wrong) -> (paths, obligations, stats).  The case runs ONCE with its deliberately wrong postcondition(s) switched on: Ctx.check never
     changes the path condition, so the `wrong.*` clauses cannot influence the others; they are taken out of the reported obligations and must be
@@ -180,7 +184,7 @@ def _run_is_io(wrong):
         loops, some = _is_io_loops(ios, r)
         vc = AVC(loops)
         fn, src = rewrite(S.SoCBusHandler.check_region_is_io, loops, vc)
-        assert src.count("__vc.for_begin(0,") == 1, "loop structure of check_region_is_io changed"
+        _sidecar_ok(src.count("__vc.for_begin(0,") == 1, "loop structure of check_region_is_io changed")
         got = fn(bus, r)
         stats["returned"] += 1
         a, x = z3.Ints("a x")
@@ -244,7 +248,7 @@ def _install_overlap(bus, d_of):
     def call(regions, check_linker=False):
         loops = _overlap_loops(regions); vc = VC(loops)
         fn, src = rewrite(S.SoCBusHandler.check_regions_overlap, loops, vc)
-        assert src.count("__vc.loop_begin(0,") == 1 and src.count("__vc.for_begin(1,") == 1, "loop structure of check_regions_overlap changed"
+        _sidecar_ok(src.count("__vc.loop_begin(0,") == 1 and src.count("__vc.for_begin(1,") == 1, "loop structure of check_regions_overlap changed")
         return fn(bus, regions, check_linker)
     bus.check_regions_overlap = call
 
@@ -447,7 +451,7 @@ def _alloc_cut(hnd):
     loops = {0: dict(pos="p", inv=lambda L: z3.ForAll([m], z3.Implies(z3.And(0 <= m, m < toint(L["p"])), z3.Select(L["self"].locs.used, m))))}
     vc = HVC(loops)
     fn, src = rewrite(S.SoCLocHandler.alloc, loops, vc)
-    assert src.count("__vc.for_begin(0,") == 1, "loop structure of SoCLocHandler.alloc changed"
+    _sidecar_ok(src.count("__vc.for_begin(0,") == 1, "loop structure of SoCLocHandler.alloc changed")
     fn.__globals__["range"] = SymRange
     return lambda name: fn(hnd, name)
 
@@ -621,7 +625,7 @@ def _run_csr_reserved(wrong, address_width=14, paging=0x800):
         X = _sub(S.SoCCSRHandler)
         loops, inv = _reserved_loop(rsv, lambda h: toint(h.n_locs)); vc = HVC(loops)
         init, src = rewrite(S.SoCCSRHandler.__init__, loops, vc)
-        assert src.count("__vc.for_begin(0,") == 1 and "reserved_csrs.items()" in src, "loop structure of SoCCSRHandler.__init__ changed"
+        _sidecar_ok(src.count("__vc.for_begin(0,") == 1 and "reserved_csrs.items()" in src, "loop structure of SoCCSRHandler.__init__ changed")
         h = X.__new__(X); a = z3.Int("a")
         try:
             init(h, data_width=32, address_width=address_width, alignment=32, paging=paging, ordering="big", reserved_csrs=rsv)
@@ -656,7 +660,7 @@ def _run_irq_init(wrong):
         loops = {0: dict(pos="k", heap=lambda L: None, inv=lambda L: z3.And(toint(L["k"]) == 0, L["self"].locs.pres == EMPTY, L["self"].locs.used == EMPTY, z3.BoolVal(L["self"].enabled is False)))}
         vc = HVC(loops)
         init, src = rewrite(S.SoCIRQHandler.__init__, loops, vc)
-        assert src.count("__vc.for_begin(0,") == 1 and "reserved_irqs.items()" in src, "loop structure of SoCIRQHandler.__init__ changed"
+        _sidecar_ok(src.count("__vc.for_begin(0,") == 1 and "reserved_irqs.items()" in src, "loop structure of SoCIRQHandler.__init__ changed")
         h = X.__new__(X)
         try:
             init(h, n_irqs=n_irqs, reserved_irqs=rsv)
@@ -900,7 +904,7 @@ def _run_sig_constraints(wrong, shape="pins"):
         loops = {0: dict(pos="q", heap=lambda L: None, havoc={"r": lambda L: RL("r")}, inv=inv)}
         vc = GVC(loops)
         fn, src = rewrite(GP.ConstraintManager.get_sig_constraints, loops, vc)
-        assert src.count("__vc.for_begin(0,") == 1 and "self.matched" in src, "loop structure of get_sig_constraints changed"
+        _sidecar_ok(src.count("__vc.for_begin(0,") == 1 and "self.matched" in src, "loop structure of get_sig_constraints changed")
         r = fn(cm)
         stats["returned"] += 1
         ctx.check("post.returns-the-list;manager-state-unchanged", z3.BoolVal(isinstance(r, RL) and not r.extra and cm.matched is M and not M.extra))
@@ -947,7 +951,7 @@ def _run_io_signals(wrong, shape="pins"):
         loops = {0: dict(pos="q", heap=lambda L: L["r"].havoc(), inv=inv)}
         vc = GVC(loops)
         fn, src = rewrite(GP.ConstraintManager.get_io_signals, loops, vc)
-        assert src.count("__vc.for_begin(0,") == 1, "loop structure of get_io_signals changed"
+        _sidecar_ok(src.count("__vc.for_begin(0,") == 1, "loop structure of get_io_signals changed")
         fn.__globals__["set"] = SymSetP
         r = fn(cm)
         stats["returned"] += 1
@@ -1049,7 +1053,7 @@ def _run_request_loop(wrong, which="request_all", shape="pins"):
         lk_loops = {0: dict(pos="i", inv=lambda L: z3.ForAll([a], z3.Implies(z3.And(0 <= a, a < toint(L["i"])),
                         z3.Not(z3.And(AP.RES_NAME(L["description"].at(a)) == AP._code(L["name"]), *([AP.RES_NUM(L["description"].at(a)) == toint(L["number"])] if L["number"] is not None else []))))))}
         lk, src = rewrite(GP._lookup, lk_loops, _NamedVC(lk_loops, "_lookup."))
-        assert src.count("__vc.for_begin(0,") == 1, "loop structure of _lookup changed"
+        _sidecar_ok(src.count("__vc.for_begin(0,") == 1, "loop structure of _lookup changed")
         rq, _ = rewrite(GP.ConstraintManager.request, {}, GVC({}))
         rq.__globals__["_lookup"] = lk
         rq.__globals__["str"] = lambda x: "0" if isinstance(x, SymInt) else str(x)
